@@ -120,3 +120,11 @@ Fixpoint pool_seq_ok_b (w : list (Z * list N)) (ops : list pop) (seen : list (li
       && pool_seq_ok_b w' ops' seen'
   | _, _ => false
   end.
+
+(* an operation has executed its whole program *)
+Definition finished (s : state) (i : opid) : Prop := prog (ops s i) = [].
+
+(* THE result of a program alone in the process: everything it observes when it runs to its end
+   (one action per instruction) with nothing else around *)
+Definition solo_result (p : list instr) : list (list N) :=
+  match run_alone p (length p) with Some t => result t 0 | None => [] end.
